@@ -223,7 +223,8 @@ class MemberBits(SymInt, metaclass=MemberBitsMeta):
     def count(self, value=True):
         if value is not True:
             raise core.Inconclusive('unsupported: count(False)')
-        return self.popcount()
+        c = self.popcount()
+        return c.e if _is_conc(c.e) else c
 
     def all(self):
         return self == self.supremum
